@@ -18,6 +18,16 @@ from pathlib import Path
 from translator.py2coq import NumModule, Untranslatable, dump, find_function, strip_doc
 
 
+OB_EDGE = 'extract:get_ground_speed:interpolation-at-the-query-point-itself (closed domain, no snapping)'
+OB_CACHE = 'extract:weather.py:_require_main_ds+_require_data (dataset / hour-slice cache)'
+
+
+def _U(msg, obligation):
+    e = Untranslatable(msg)
+    e.obligation = obligation
+    return e
+
+
 def _is_call_stmt(st, text):
     return isinstance(st, ast.Expr) and dump(st.value) == dump(ast.parse(text, mode='eval').body)
 
@@ -41,7 +51,7 @@ def _interp_call(st, target: str, where: str):
         raise Untranslatable(f'{where}: interp keywords {sorted(kw)}')
     for name in ('latitude', 'longitude'):
         if dump(kw[name]) != dump(ast.parse(f'gt_point.location.{name}', mode='eval').body):
-            raise Untranslatable(f'{where}: interp {name}= must be gt_point.location.{name}')
+            raise _U(f'{where}: interp {name}= must be gt_point.location.{name}, found {ast.unparse(kw[name])}', OB_EDGE)
     return kw['pressure_level'], var
 
 
@@ -76,6 +86,13 @@ def extract_c16(repo: Path) -> str:
     if params != ['self', 'time', 'gt_point', 'altitude', 'true_airspeed', 'azimuth']:
         raise Untranslatable(f'{where}: signature {params}')
     body = strip_doc(fn.body)
+    if len(body) >= 3 and isinstance(body[1], ast.Assert):
+        k = 2
+        while k < len(body) and not (isinstance(body[k], ast.Assign) and ast.unparse(body[k].targets[0]) == 'wind_u'):
+            k += 1
+        if k > 2:      # something is computed between loading the data and interpolating: the query point is rewritten
+            raise _U(f'{where}: statements before the interpolation change what is interpolated: '
+                     + '; '.join(ast.unparse(x)[:70] for x in body[2:k]), OB_EDGE)
     if len(body) != 9:
         raise Untranslatable(f'{where}: expected 9 statements, found {len(body)}')
     s_req, s_assert, s_u, s_v, s_null, s_head, s_ua, s_va, s_ret = body
@@ -102,17 +119,40 @@ def extract_c16(repo: Path) -> str:
             and s_null.body[0].exc.func.id == 'ValueError'):
         raise Untranslatable(f'{where}: the NaN (outside-domain) refusal changed')
     # heading: if azimuth is None: heading_rad = f(gt_point.azimuth) else: heading_rad = f(azimuth)
-    if not (isinstance(s_head, ast.If) and dump(s_head.test) == dump(ast.parse('azimuth is None', mode='eval').body)
-            and len(s_head.body) == 1 and len(s_head.orelse) == 1):
-        raise Untranslatable(f'{where}: heading selection changed')
+    #   or (second recognised form, Python truthiness): heading_rad = f(azimuth or gt_point.azimuth)
     heads = []
-    for st, var in ((s_head.body[0], 'gt_point.azimuth'), (s_head.orelse[0], 'azimuth')):
-        if not (isinstance(st, ast.Assign) and len(st.targets) == 1 and isinstance(st.targets[0], ast.Name)
-                and st.targets[0].id == 'heading_rad'):
-            raise Untranslatable(f'{where}: heading_rad assignment changed')
-        heads.append(m.expr(st.value, {var: 'v_azimuth'}, where))
+    truthy = False
+    if isinstance(s_head, ast.If) and dump(s_head.test) == dump(ast.parse('azimuth is None', mode='eval').body) \
+            and len(s_head.body) == 1 and len(s_head.orelse) == 1:
+        for st, var in ((s_head.body[0], 'gt_point.azimuth'), (s_head.orelse[0], 'azimuth')):
+            if not (isinstance(st, ast.Assign) and len(st.targets) == 1 and isinstance(st.targets[0], ast.Name)
+                    and st.targets[0].id == 'heading_rad'):
+                raise Untranslatable(f'{where}: heading_rad assignment changed')
+            heads.append(m.expr(st.value, {var: 'v_azimuth'}, where))
+    elif isinstance(s_head, ast.Assign) and len(s_head.targets) == 1 and ast.unparse(s_head.targets[0]) == 'heading_rad':
+        orx = [n for n in ast.walk(s_head.value) if isinstance(n, ast.BoolOp)]
+        if len(orx) != 1 or not isinstance(orx[0].op, ast.Or) \
+                or [ast.unparse(v) for v in orx[0].values] != ['azimuth', 'gt_point.azimuth']:
+            raise Untranslatable(f'{where}: heading selection changed: {ast.unparse(s_head)[:100]}')
+        truthy = True
+        txt = ast.unparse(s_head.value).replace(ast.unparse(orx[0]), 'AZ__')
+        one = ast.parse(txt, mode='eval').body
+        if hasattr(m, '_text'):
+            del m._text            # literals of the re-parsed expression are taken from their own text
+        heads = [m.expr(one, {'AZ__': 'v_azimuth'}, where)] * 2
+        m._src(wpath)
+    else:
+        raise Untranslatable(f'{where}: heading selection changed')
     m.raw(f'Definition heading_default (v_azimuth : T N) : T N := {heads[0]}.')
     m.raw(f'Definition heading_given (v_azimuth : T N) : T N := {heads[1]}.')
+    # which heading is used: the explicit one if one is passed (None = not passed), else the ground-track point's
+    if truthy:
+        m.raw('Definition heading_choice (given : option (T N)) (v_point_azimuth : T N) : T N :=\n'
+              '  match given with\n  | None => heading_default v_point_azimuth\n'
+              '  | Some a => if a =? zero then heading_default v_point_azimuth else heading_given a\n  end.')
+    else:
+        m.raw('Definition heading_choice (given : option (T N)) (v_point_azimuth : T N) : T N :=\n'
+              '  match given with None => heading_default v_point_azimuth | Some a => heading_given a end.')
     env2 = {'true_airspeed': 'v_tas', 'heading_rad': 'v_heading_rad'}
     for st, name in ((s_ua, 'u_air'), (s_va, 'v_air')):
         if not (isinstance(st, ast.Assign) and len(st.targets) == 1 and isinstance(st.targets[0], ast.Name)
@@ -131,6 +171,71 @@ def extract_c16(repo: Path) -> str:
     m.raw('Definition ground_speed_query (v_tas v_azimuth f_u f_v : T N) : T N :=\n'
           f'  ground_speed_kernel v_tas v_azimuth f_{var_u} f_{var_v}.')
     return m.text()
+
+
+def extract_cache_cfg(repo: Path) -> str:
+    """Weather._nc_path, _require_main_ds, _require_data as the configuration of model/C16_CacheModel.v.
+    Recognised (fail closed otherwise):
+      _require_main_ds:  [path = self._nc_path(time)]
+                         if self._main_ds is not None and (self._ds_date == time | self._ds_path == path): return
+                         [self._ds = None] [self._ds_time_idx = None]
+                         if self._main_ds is not None: close, drop, gc.collect()
+                         self._main_ds = xr.open_dataset(self._nc_path(time) | path)
+                         self._ds_date = time | self._ds_path = path
+      _require_data:     exactly the current text (early return on `_ds is not None and _ds_time_idx == time.hour`,
+                         whole file unless 'valid_time' is a dimension, then isel(valid_time=time.hour))."""
+    wpath = Path(repo) / 'src/AEIC/weather.py'
+    mod = ast.parse(wpath.read_text())
+    same = lambda node, text: dump(node) == dump(ast.parse(text).body[0])  # noqa: E731
+    npth = strip_doc(find_function(mod, '_nc_path', cls='Weather').body)
+    if len(npth) != 2 or not same(npth[0], "fname = time.strftime('%Y%m%d.nc')") \
+            or not same(npth[1], 'return Path(config.file_location(str(self.data_dir / fname)))'):
+        raise _U('weather.py:_nc_path: the daily file name rule changed', OB_CACHE)
+    body = strip_doc(find_function(mod, '_require_main_ds', cls='Weather').body)
+    i = 0
+    has_path = False
+    if i < len(body) and same(body[i], 'path = self._nc_path(time)'):
+        has_path, i = True, i + 1
+    key_path = None
+    if i < len(body) and same(body[i], 'if self._main_ds is not None and self._ds_date == time:\n    return'):
+        key_path = False
+    elif i < len(body) and has_path and same(body[i], 'if self._main_ds is not None and self._ds_path == path:\n    return'):
+        key_path = True
+    if key_path is None:
+        raise _U('weather.py:_require_main_ds: the test for "this file is already open" changed', OB_CACHE)
+    i += 1
+    reset_slice = reset_idx = False
+    while i < len(body) and (same(body[i], 'self._ds = None') or same(body[i], 'self._ds_time_idx = None')):
+        if same(body[i], 'self._ds = None'):
+            reset_slice = True
+        else:
+            reset_idx = True
+        i += 1
+    close = 'if self._main_ds is not None:\n    self._main_ds.close()\n    self._main_ds = None\n    gc.collect()'
+    if not (i < len(body) and same(body[i], close)):
+        raise _U('weather.py:_require_main_ds: closing the previous dataset changed', OB_CACHE)
+    i += 1
+    opens = ['self._main_ds = xr.open_dataset(self._nc_path(time))'] + (['self._main_ds = xr.open_dataset(path)'] if has_path else [])
+    if not (i < len(body) and any(same(body[i], o) for o in opens)):
+        raise _U('weather.py:_require_main_ds: opening the daily file changed', OB_CACHE)
+    i += 1
+    want_key = 'self._ds_path = path' if key_path else 'self._ds_date = time'
+    if not (i + 1 == len(body) and same(body[i], want_key)):
+        raise _U('weather.py:_require_main_ds: the key of the open dataset is not recorded as it is tested', OB_CACHE)
+    data = strip_doc(find_function(mod, '_require_data', cls='Weather').body)
+    want = ['self._require_main_ds(time)',
+            'if self._ds is not None and self._ds_time_idx == time.hour:\n    return',
+            'assert self._main_ds is not None',
+            'self._ds = self._main_ds',
+            'self._ds_time_idx = None',
+            "if 'valid_time' in self._main_ds.dims:\n    self._ds = self._main_ds.isel(valid_time=time.hour)\n"
+            '    self._ds_time_idx = time.hour']
+    if len(data) != len(want) or not all(same(a, b) for a, b in zip(data, want)):
+        raise _U('weather.py:_require_data: body changed', OB_CACHE)
+    b = lambda x: 'true' if x else 'false'  # noqa: E731
+    return ('(* generated by translator/c16_extract.py:extract_cache_cfg from weather.py — do not edit *)\n'
+            'From AV Require Import model.C16_CacheModel.\n'
+            f'Definition weather_cfg : cfg := mkCfg {b(key_path)} {b(reset_slice)} {b(reset_idx)}.\n')
 
 
 if __name__ == '__main__':
